@@ -213,14 +213,15 @@ def validate_trace(module, cfg, trace, tmp, max_rejections=8, timeout=900):
 
 
 # ----------------------------------------------------------------------------- findings
-def known_findings():
-    path = os.path.join(VERIF, 'known_findings.jsonl')
+def known_findings_text():
+    """Lines of /verif/known_findings.txt ('fixed: ...' / 'known: ...'); read-only."""
+    path = os.path.join(VERIF, 'known_findings.txt')
     out = []
     if os.path.exists(path):
         for ln in open(path):
             ln = ln.strip()
             if ln and not ln.startswith('#'):
-                out.append(json.loads(ln))
+                out.append(ln)
     return out
 
 
